@@ -106,7 +106,7 @@ def run(task):
     if task[1] == "focus":
         tier, _, fi, shard, nshards = task
         name, prog, only = layout.focus_programs()[fi]
-        items = [("F/" + name, prog, {"only": only, "styles": layout.STYLES_FOCUS, "case": False, "indents": False}, b["focus_k"])]
+        items = [("F/" + name, prog, {"only": only, "styles": layout.STYLES_FOCUS, "case": name.startswith("format"), "indents": False}, b["focus_k"])]
     else:
         tier, idx, shard, nshards = task
         progs = _get_progs(tier)
@@ -116,7 +116,7 @@ def run(task):
         std = G.prog_std(prog)
         o0 = try_parse(layout.canonical_text(prog), std)
         if not o0.ok:
-            res.violation("C04|model:canonical-rejected|" + pid.split("/")[1], "%s %s" % (pid, o0.msg), {"pid": pid, "tier": tier, "vec": []})
+            res.violation(sig_for("model", "canonical-rejected:" + o0.klass(), ()), "%s: the canonical one-statement-per-line text is rejected\n%s" % (pid, o0.msg), {"pid": pid, "tier": tier, "vec": []})
             continue
         ref = canon(o0.tree)
         res.classes |= node_classes(o0.tree)
@@ -149,7 +149,7 @@ def replay(case):
     tier = case["tier"]
     if case["pid"].startswith("F/"):
         name, prog, only = [f for f in layout.focus_programs() if "F/" + f[0] == case["pid"]][0]
-        opts = {"only": only, "styles": layout.STYLES_FOCUS, "case": False, "indents": False}
+        opts = {"only": only, "styles": layout.STYLES_FOCUS, "case": name.startswith("format"), "indents": False}
     else:
         progs = dict(_get_progs(tier))
         prog = progs[case["pid"]]
